@@ -3,6 +3,8 @@
 
 package scheduler
 
+import "time"
+
 // VerifYield and VerifNote are simulator hooks, only compiled with the `verif` build tag.
 // VerifYield may block the calling goroutine until the simulator releases it; VerifNote never blocks.
 var VerifYield func(kind string, subject interface{})
@@ -17,5 +19,15 @@ func verifYield(kind string, subject interface{}) {
 func verifNote(kind string, subject interface{}) {
 	if f := VerifNote; f != nil {
 		f(kind, subject)
+	}
+}
+
+// VerifPause, when non-zero, replaces the polling pause of every Scheduler created afterwards
+// (simulated time only: the simulator settles the polling loop between its own steps).
+var VerifPause time.Duration
+
+func verifInit(s *Scheduler) {
+	if VerifPause > 0 {
+		s.pause = VerifPause
 	}
 }
